@@ -43,7 +43,7 @@ CASES = {
         ("flory_schulz", (0.1,)), ("flory_schulz", (0.02,)), ("flory_schulz", (0.3,)),
     ],
 }
-UNITS = ["[<]CC[>]", "[<]CC([>])c1ccccc1"]
+UNITS = ["[<]CC[>]", "[<]CC([>])c1ccccc1", "[<]C([2H])([2H])C([2H])([2H])[>]"]
 
 
 def enumerate_cases(tier, seed):
@@ -51,14 +51,20 @@ def enumerate_cases(tier, seed):
     units = UNITS[:1] if tier == "quick" else UNITS
     for (fam, par), u in itertools.product(CASES[tier], units):
         yield ("single", {"fam": fam, "par": list(par), "unit": u, "J": J})
+    # isotope-labelled hydrogens stay explicit atoms in the toolkit; they are not heavy atoms
+    yield ("single", {"fam": "uniform", "par": [12, 172], "unit": UNITS[2], "J": J})
+    yield ("single", {"fam": "gauss", "par": [100.0, 30.0], "unit": UNITS[2], "J": J, "reuse": True})
     J2 = 12 if tier == "quick" else 24
     pairs = [(("schulz_zimm", (400.0, 300.0)), ("schulz_zimm", (150.0, 120.0))), (("flory_schulz", (0.1,)), ("flory_schulz", (0.02,))), (("gauss", (100.0, 30.0)), ("uniform", (12, 172))), (("uniform", (20, 120)), ("uniform", (20, 120))), (("log_normal", (90.0, 1.3)), ("poisson", (65.0,)))]
     if tier == "thorough":
         pairs += [(("gauss", (80.0, 25.0)), ("gauss", (80.0, 25.0))), (("schulz_zimm", (150.0, 120.0)), ("flory_schulz", (0.1,)))]
     for a, b in pairs:
         yield ("multi", {"laws": [[a[0], list(a[1])], [b[0], list(b[1])]], "J": J2})
+        # the same parsed object generates every grid point (state kept between generations of one object)
+        yield ("multi", {"laws": [[a[0], list(a[1])], [b[0], list(b[1])]], "J": J2, "reuse": True})
     J3 = 5 if tier == "quick" else 8
     yield ("multi", {"laws": [["uniform", [20, 120]], ["gauss", [70.0, 30.0]], ["uniform", [20, 120]]], "J": J3})
+    yield ("multi", {"laws": [["uniform", [20, 120]], ["gauss", [70.0, 30.0]], ["uniform", [20, 120]]], "J": J3, "reuse": True})
 
 
 def ref_target(fam, par, u):
@@ -99,6 +105,7 @@ def eval_case(kind, data):
     text = "N" + "".join(f"{{[>]{u}[<]}}|{dist_text(f, p)}|" for (f, p), u in zip(laws, units)) + "F"
     masses = [token_ref(u).mass for u in units]
     grid = [(j + 0.5) / J for j in range(J)]
+    shared = gbigsmiles.Molecule(text) if data.get("reuse") else None
     hist = {}
     skipped = 0
     failed_draws = 0
@@ -146,7 +153,7 @@ def eval_case(kind, data):
             return orig_draw(kind_, vals, info)
 
         rng._draw = _draw
-        st, out = run_limited(lambda: gbigsmiles.Molecule(text).generate(rng=rng), (), 60)
+        st, out = run_limited(lambda: (shared if shared is not None else gbigsmiles.Molecule(text)).generate(rng=rng), (), 60)
         res["transitions"] += 1
         res["traces"] += 1
         if st != "ok":
@@ -187,7 +194,7 @@ def eval_case(kind, data):
                 {"text": text, "us": list(us)},
             )
     res["evals"] = res["traces"]
-    res["nontrivial"] = [text, J]
+    res["nontrivial"] = [text, J, bool(data.get("reuse"))]
     res["outcomes"] = [f"{text}:{k}" for k in sorted(hist)][:60]
     res["sample"] = {"molecule": text, "grid_points": len(grid) ** len(laws), "skipped_near_boundary": skipped, "skipped_failed_draws": failed_draws, "distinct_block_size_tuples": len(hist)}
     res["extra"] = {"skipped_near_boundary": skipped, "skipped_failed_draws": failed_draws}
